@@ -50,6 +50,7 @@ type snapshotter struct {
 	inGC     bool
 	gcOnly   bool
 	dropped  int
+	noTorn   bool // no torn variants of data writes (the chain unit: they are C06_Kill's subject)
 }
 
 var snapEventsNormal = []string{"fs.create", "fs.rename.before", "fs.rename.after", "fs.remove.before", "fs.remove.after",
@@ -162,7 +163,7 @@ func (s *snapshotter) handle(name string, args ...interface{}) {
 		path := args[0].(string)
 		pre := s.preWrite[path]
 		delete(s.preWrite, path)
-		if pre == nil {
+		if pre == nil || s.noTorn {
 			return
 		}
 		final, err := os.ReadFile(path)
@@ -630,6 +631,7 @@ type crashStats struct {
 type crashCheck struct {
 	property, name string
 	gcOnly         bool
+	maxImages      int // 0 = default budget
 	profile        func() *genProfile
 }
 
@@ -639,6 +641,10 @@ func (cc *crashCheck) runCase(h *History) (r *histRunner, st *crashStats, err er
 	o := runOpts{keepStore: false, noCloseAtEnd: false}
 	o.hookExtra = func(r *histRunner) func(string, ...interface{}) {
 		snap = newSnapshotter(r, cc.gcOnly)
+		if cc.maxImages > 0 {
+			snap.max = cc.maxImages
+			snap.noTorn = true
+		}
 		return snap.handle
 	}
 	if cc.gcOnly {
@@ -780,3 +786,26 @@ var c06Crash = &crashCheck{
 func TestVerif_C06_Kill(t *testing.T) { c06Crash.check(t) }
 
 func init() { c06Crash.register() }
+
+// Chains of kills: short phases of writes / flushes / hint dumps separated by kills at operation boundaries (the
+// history continues on the recovered store), so that what one recovery leaves behind (stale hint splits, half
+// filled data files, reused file ids) meets the next kill. Every image of every phase is judged as in C06_Kill.
+var c06Chain = &crashCheck{
+	property: "C06", name: "TestVerif_C06_KillChain", maxImages: 60,
+	profile: func() *genProfile {
+		f := false
+		p := &genProfile{minOps: 6, maxOps: 22, crash: true, tinyFiles: true, maxKeys: 5, buckets: []int{1}, checkVHash: &f, maxHeight: 3,
+			kinds: []string{"set", "set", "set", "set", "set", "set", "set", "delete", "dumphints", "dumphints", "flush", "flush", "rotate", "crash", "get"},
+			postCfg: func(t *rapid.T, c *Cfg) {
+				c.SplitCap = rapid.SampledFrom([]int64{2, 2, 3, 5}).Draw(t, "splitcap_chain")
+			}}
+		if thorough() {
+			p.maxOps = 40
+		}
+		return p
+	},
+}
+
+func TestVerif_C06_KillChain(t *testing.T) { c06Chain.check(t) }
+
+func init() { c06Chain.register() }
